@@ -462,7 +462,7 @@ async fn recv_world(lists: u8, hist: &[REv]) -> Result<(u128, u64), Violation> {
     let ghost_addr = SocketAddr::new(ips()[0], 30303);
     let ghost = util::enr4(&ghost_key, 1, ghost_addr);
     let cfg = HCfg { nodes: 1, workload: vec![Req { from: 0, to: 9, body: Body::Ping, with_enr: true }], packet_filter: true, rate_limits: Some(quotas), ghost: Some((ghost, ghost_addr, true)), ..Default::default() };
-    let monitors = Monitors { c03: false, c04: false, c13: false, c15: false, c19: false };
+    let monitors = Monitors { c03: false, c04: false, c13: false, c15: false, c19: false, c20: false };
     // the handler reads the process-global list
     v::ban_list_set(initial_lists(&fcfg));
     let mut w = World::build(&cfg, monitors).await;
